@@ -33,6 +33,14 @@ type Obligation struct {
 	Expected string // "" normally; "sat" for cover checks
 	Bounded  string // non-empty: bounded obligation with this scope
 	Text     string // source text of the clause
+	Retried  bool
+	Alts     []AltGoal // pieces of the goal (each must be discharged) tried when the whole goal is not
+	FailedAlt string
+}
+
+type AltGoal struct {
+	Text string
+	Goal string
 }
 
 type Ctx struct {
@@ -344,6 +352,7 @@ func tokens(s string) []string {
 }
 
 type SolveOpts struct {
+	NoRetry   bool
 	TimeoutMs int
 	Dir       string
 	Seed      int
@@ -382,8 +391,36 @@ func runSolver(sc SolverCfg, script string, dir string, name string, timeoutMs i
 	return first, s, el
 }
 
-// Solve runs the portfolio on one obligation: first unsat wins.
+// Solve discharges the obligation: the whole goal first; if that is not decided and the goal has pieces
+// (a universally quantified conjunction), every piece separately.
 func (o *Obligation) Solve(opts SolveOpts) {
+	o.solveGoal(opts)
+	if o.Result == "unsat" || o.Result == "sat" || len(o.Alts) == 0 || o.Expected != "" {
+		return
+	}
+	whole := o.Goal
+	wholeRes, wholeT := o.Result, o.TimeS
+	defer func() { o.Goal = whole }()
+	total := wholeT
+	for _, a := range o.Alts {
+		o.Goal = a.Goal
+		o.Model = ""
+		o.solveGoal(opts)
+		total += o.TimeS
+		if o.Result != "unsat" {
+			o.FailedAlt = a.Text
+			if o.Result != "sat" {
+				o.Result = wholeRes
+			}
+			o.TimeS = total
+			return
+		}
+	}
+	o.Result, o.Solver, o.TimeS = "unsat", o.Solver+"+split", total
+}
+
+// solveGoal runs the portfolio on the current goal: first unsat wins.
+func (o *Obligation) solveGoal(opts SolveOpts) {
 	want := "unsat"
 	order := []SolverCfg{}
 	for _, n := range opts.Solvers {
@@ -465,5 +502,40 @@ func SolveAll(obls []*Obligation, opts SolveOpts, par int) {
 		}()
 	}
 	wg.Wait()
+	// second chance: an obligation that ran out of time under load is retried with three times the budget and little
+	// parallelism before it may be reported (a time-out is "undecided", and load must not turn it into an alarm)
+	var retry []*Obligation
+	for _, o := range obls {
+		if o.Expected == "" && o.Result != "unsat" && o.Result != "sat" {
+			retry = append(retry, o)
+		}
+	}
+	if len(retry) > 0 && !opts.NoRetry {
+		o2 := opts
+		o2.TimeoutMs = opts.TimeoutMs * 3
+		sem2 := make(chan struct{}, 4)
+		var wg2 sync.WaitGroup
+		for _, o := range retry {
+			o := o
+			wg2.Add(1)
+			sem2 <- struct{}{}
+			go func() {
+				defer wg2.Done()
+				defer func() { <-sem2 }()
+				first := o.TimeS
+				o.Solve(o2)
+				o.TimeS += first
+				o.Retried = true
+			}()
+		}
+		wg2.Wait()
+	}
 	sort.SliceStable(obls, func(i, j int) bool { return obls[i].Name < obls[j].Name })
+}
+
+func (o *Obligation) setAlts(cs []conjunct) *Obligation {
+	for _, c := range cs {
+		o.Alts = append(o.Alts, AltGoal{c.Text, c.Term})
+	}
+	return o
 }
